@@ -16,8 +16,9 @@
     the debugger is attached: `C16`/`iter`).
   Pausing earlier at a breakpoint is C11 `bp_pause_before_exec`; HALT / leaving user space make
   the preamble switch to waiting (`DbgProofs.nextAction_no_cmd`).
-  NOT proved as one big-step statement ("step into N executes exactly min(N, …) instructions"):
-  it follows by induction from `stepInto_iter` along the trajectory; stated informally here.
+  The big-step statement for `step into N` is `stepInto_exact` in `Props/C10Big.lean`; the
+  analogous big-step statements for `step`, `step out` and `continue` are not written as single
+  theorems (their one-iteration lemmas are above).
 -/
 import Lace.Props.C11
 namespace Lace.C10
